@@ -35,6 +35,7 @@ def generate(rng, tier):
     maxlen = 3 if tier == "quick" else 4
     contents = [list(c) for n in range(maxlen + 1) for c in itertools.product(alpha, repeat=n)]
     names = [[102], [], [103, 46, 116]]
+    pct = [[37, 100, 46, 116], [53, 48, 37, 111, 102, 102], [109, 37, 50, 48, 115]]     # "%d.t" "50%off" "m%20s"
     # exhaustive: one and two files
     sets = [[]] + [[c] for c in contents] + [[a, b] for a in contents for b in contents]
     if tier != "quick":
@@ -55,7 +56,7 @@ def generate(rng, tier):
             for j in range(len(d) - 1):
                 if rng.random() < 0.1:
                     d[j], d[j + 1] = 13, 10
-            nm = rng.choice([[], [102, 48 + i % 10], [47, 120, 47, 121, 46, 116, 120, 116]])
+            nm = rng.choice([[], [102, 48 + i % 10], [47, 120, 47, 121, 46, 116, 120, 116]] + pct)
             files.append((nm, d))
         tl = total_len(files)
         pos = sorted(set([0, 1, tl - 1, tl, tl + 1, tl + 50] + [rng.randrange(0, tl + 3) for _ in range(30)]))
